@@ -47,6 +47,40 @@ def events(src, n):
         yield {"op": "cyk_matrix", "cfg": AC, "w": ab.word(w), "cells": cells, "exc": exc, "src": dict(src, n=n)}
 
 
+def history_events(src, n):
+    """history: compute a table for a CNF grammar, append a rule to the SAME object, ask again; and derive a
+    grammar from it (new start variable) and ask that one"""
+    import gambatools.cfg_algorithms as ca
+    from gambatools.cfg import Rule, Alternative, Terminal
+    G = cfgsrc.build(src)
+    if not G.is_chomsky() or not G.Sigma or "mut" in src:
+        return
+    sigma = sorted(G.Sigma)
+    ca.cfg_cyk_matrix(G, sigma[0])
+    A = sorted(G.V)[-1]
+    t = sigma[-1]
+    r = Rule(A, Alternative([Terminal(t)]))
+    if r in G.R:
+        return
+    G.R.append(r)
+    A2 = ab.cfg(G)
+    acc, exc = guarded(lambda: [w for w in U.words_upto(sigma, n) if ca.cfg_accepts_word(G, w)], 60)
+    yield {"op": "cfg_accepts", "cfg": A2, "n": n, "accepted": ab.words(acc or []), "exc": exc,
+           "src": dict(src, n=n, mut=1), "post_equal": True}
+    w = "".join(sigma[: 2] * 2)[: max(1, n)]
+    X, exc = guarded(lambda: ca.cfg_cyk_matrix(G, w))
+    cells = []
+    if exc == "none":
+        m = len(w)
+        cells = [[i, j, sorted(ab.enc(v) for v in (X[i, j] if (i, j) in X else set()))] for i in range(m) for j in range(i, m)]
+    yield {"op": "cyk_matrix", "cfg": A2, "w": ab.word(w), "cells": cells, "exc": exc, "src": dict(src, n=n, mut=1)}
+    H, exc = guarded(lambda: ca.cfg_add_new_start_variable(G))
+    if exc == "none":
+        acc, exc = guarded(lambda: [w for w in U.words_upto(sigma, n) if ca.cfg_accepts_word(H, w)], 60)
+        yield {"op": "cfg_accepts", "cfg": ab.cfg(H), "n": n, "accepted": ab.words(acc or []), "exc": exc,
+               "src": dict(src, n=n, mut=1), "post_equal": True}
+
+
 def drive(task):
     if task["kind"] == "small":
         for i, rules in enumerate(cfgsrc.small_grammars(3)):
@@ -58,11 +92,16 @@ def drive(task):
     else:
         rng = random.Random(task["seed"])
         for i in range(task["count"]):
-            yield from events(cfgsrc.random_src(rng, cnf=rng.random() < 0.35), task["n"])
+            src = cfgsrc.random_src(rng, cnf=rng.random() < 0.35)
+            yield from events(src, task["n"])
+            yield from history_events(src, task["n"])
 
 
 def redrive(src):
     n = src.pop("n", 3)
+    if src.pop("mut", None):
+        yield from history_events(src, n)
+        return
     yield from events(src, n)
 
 
